@@ -602,9 +602,31 @@ def emit_unit(em, repo, u, type_table, log):
         lo, hi = src.find_impl(h["impl"])
     f = src.find_fn(h["fn"], lo, hi)
     toks = src.toks
+    block = None
+    if h.get("block"):
+        # a statement (loop) inside the function, extracted as a pseudo-function over its free variables (declared in `params:`)
+        want = [t.text for t in lex(h["block"]) if t.kind not in ("ws", "comment")]
+        sigk = [k for k in range(f["b_open"] + 1, f["b_close"]) if toks[k].kind not in ("ws", "comment")]
+        hits = [sigk[a] for a in range(len(sigk) - len(want) + 1) if all(toks[sigk[a + b]].text == want[b] for b in range(len(want)))]
+        if len(hits) != 1:
+            raise Undecided("anchor lost: block anchor %r matches %d places in %s" % (h["block"], len(hits), name))
+        depth, j = 0, hits[0]
+        while j < f["b_close"]:
+            tx = toks[j].text if toks[j].kind == "punct" else ""
+            if tx in ("(", "["):
+                depth += 1
+            elif tx in (")", "]"):
+                depth -= 1
+            elif tx == "{" and depth == 0:
+                break
+            j += 1
+        block = (hits[0], match_close(toks, j))
+        f = dict(f, line0=toks[block[0]].line, line1=toks[block[1]].line)
     # ---- signature (R1, R2)
     params_txt = text_of([t for t in toks[f["p_open"] + 1:f["p_close"]] if t.kind != "comment"])
     params = [p.strip() for p in split_top(params_txt) if p.strip()]
+    if block:
+        params = []
     table = dict(type_table)
     for s in _sections(u, "types"):
         for ln in s["lines"]:
@@ -642,7 +664,9 @@ def emit_unit(em, repo, u, type_table, log):
                 pat = pat[4:]
             new_params.append("%s: %s" % (pat, mty))
         pk += 1
-    ret = f["ret"]
+    if block:
+        new_params = [p.strip() for p in split_top(h.get("params", "")) if p.strip()]
+    ret = None if block else f["ret"]
     retname = h.get("ret", "r")
     ret_txt = ""
     if ret is not None:
@@ -683,7 +707,7 @@ def emit_unit(em, repo, u, type_table, log):
                 em.add("        " + ln, kind="proof", unit=name, label="at-start", ufile=u["path"], uline=s["line0"] + off)
             em.add("    }", kind="meta", unit=name)
     # ---- body (R3, R4) and splice (R6)
-    body = list(toks[f["b_open"] + 1:f["b_close"]])
+    body = list(toks[block[0]:block[1] + 1]) if block else list(toks[f["b_open"] + 1:f["b_close"]])
     body = rewrite_R1b(body, log)
     body = rewrite_R3(body, log)
     body = rewrite_R4(body, log, name)
@@ -710,7 +734,7 @@ def emit_unit(em, repo, u, type_table, log):
         em.add("}", kind="canary", unit=cn)
     import hashlib
     return dict(canary=has_canary, unit=name, file=h["file"], fn=h["fn"], impl=h.get("impl"), lines=[f["line0"], f["line1"]],
-                sha256=hashlib.sha256(text_of(toks[f["kfn"]:f["b_close"] + 1]).encode()).hexdigest()[:16])
+                sha256=hashlib.sha256(text_of(toks[block[0]:block[1] + 1] if block else toks[f["kfn"]:f["b_close"] + 1]).encode()).hexdigest()[:16])
 
 
 class Mark:
